@@ -474,6 +474,9 @@ class VirtualFileSystem(FileSystem[str]):
     def walk_folder(self, folder: str = '') -> Iterator[File[Self]]:
         """Return all files that are 'subfolders' of the provided folder."""
         folder = self._clean_path(folder)
+        if folder == '.':
+            # normpath() turns the root folder '' into '.', which no filename starts with.
+            folder = ''
 
         for filename, data in self._mapping.values():
             if filename.startswith(folder):
